@@ -1148,7 +1148,7 @@ def run(ctx, out):
     samples = []
     features = {}
     profiles = {}
-    n_models = int(os.environ.get("VERIF_C15_MODELS") or 0) or ctx.n(70, 1500)
+    n_models = int(os.environ.get("VERIF_C15_MODELS") or 0) or ctx.n(58, 1500)
     batch = 12
     idx = 0
     tasks = []          # (phase, (ctx, cases, rngs, fixed))
